@@ -97,7 +97,15 @@ class InterpProp(Prop):
     def make_ops(self, rnd, knobs, sc):
         return gen.gen_ops(rnd, knobs, self.n_ops)
 
+    scale = 0.004           # share of cases on a very deep / very wide / bushy statechart (gen.scale_chart)
+
     def gen_case(self, rnd, tier):
+        if self.scale and rnd.random() < self.scale * (3 if tier == 'thorough' else 1):
+            sc, ops1 = gen.scale_chart(rnd)
+            enc = ChartEnc(sc)
+            payload = {'kind': 'interp', 'charts': [enc.json], 'via_yaml': False,
+                       'ops': [['create', 0, self.ignore_contract, [], 0]] + ops1}
+            return Case(payload, {'charts': [sc]}, model_ok=enc.supported)
         kn = self.knobs(rnd, tier)
         g = gen.ChartGen(rnd, kn)
         sc = g.build()
